@@ -2,6 +2,6 @@ SPECIFICATION Spec
 CONSTANTS
   MaxArgs = 3
   Emit = FALSE
-INVARIANTS BindExact EmitAll
+INVARIANTS BindExact EmitAll EmitDSN
 PROPERTY TemplatesImmutable
 CHECK_DEADLOCK FALSE
